@@ -40,6 +40,7 @@ def flags():
         d = U.known_defects()
         _FLAGS = {'print': not d['print-not-rescoped'], 'casts': not d['cast-unpicklable'], 'dtsym': not d['dtsym-not-rescoped'],
                   'members': not d['member-parent-lost'], 'frontend_state': not d['unpickle-rescoping-not-identity'],
+                  'assoc_shadow_root': not d['selector-of-shadowing-associate-misscoped'],
                   'procedure_links': not d['procedure-link-dropped']}
     return _FLAGS
 
@@ -210,57 +211,46 @@ def _no_intrinsics(symtabs):
     return [[lab, {k: v for k, v in tab.items() if not (isinstance(v, dict) and v.get('is_intrinsic'))}] for lab, tab in symtabs]
 
 
-def roundtrip_checks(ctx, case, u, u2, label, parent_exempt=True):
-    """all comparisons between u and its unpickled copy u2; label = 'rt1' | 'rt2'"""
+def roundtrip_checks(ctx, case, u, u2, label):
+    """
+    all comparisons between u and its unpickled copy u2; label = 'rt1' | 'rt2'. One root cause usually shows in several
+    of them (a symbol that is attached to the wrong scope also has another type, makes the units unequal, ...), so only
+    the most specific failing comparison is reported: scope identity > attachment > type > equality > table contents.
+    """
     pre = f'C18:{label}'
     inv = attr_filter(U.Inventory(u))
     inv2 = attr_filter(U.Inventory(u2))
     foreign = [('orig', inv.owned_ids())]
     s1 = U.snapshot(u, inv=inv)
     s2 = U.snapshot(u2, foreign=foreign, inv=inv2)
-    # 1. same code
+    reported = []
+
+    def fail(sig, detail):
+        reported.append(sig)
+        ctx.fail(sig, case, detail)
+
+    # 1. same code (independent of the rest: always reported)
     if s1['fgen'] != s2['fgen']:
         d = U.snapshot_diff({'fgen': s1['fgen']}, {'fgen': s2['fgen']})
         ctx.fail(f'{pre}:fgen-differs', case, f'fgen(unpickled) != fgen(original): {d[1]}')
-    # 2. equality
-    try:
-        equal = (u2 == u)
-    except Exception as e:  # noqa
-        ctx.fail(f'{pre}:eq-raises:{exc_bucket(e)}', case, repr(e))
-        equal = True
-    if not equal and any(t.startswith('anc') for t in s1['scoping']):
-        # the unit refers to symbols of its parent (sibling procedures, host variables); the parent is not pickled by
-        # design, those symbols come back deferred and cannot compare equal
-        ctx.count(f'{label}:equality-not-judged:unit-uses-symbols-of-its-unpickled-parent')
-    elif not equal:
-        still_unequal = _without_procedure_links(u, u2, lambda: None if u2 == u else _first_unequal(u, u2))
-        if still_unequal is None:
-            if case.get('judge_procedure_links', flags()['procedure_links']):
-                ctx.fail(f'{pre}:not-equal:ProcedureType-link-dropped', case,
-                         'unpickled != original although they are equal once the ProcedureType -> Subroutine links (weak references '
-                         'that ProcedureType.__getstate__ drops) are ignored on both sides')
-            else:
-                ctx.exclude('u2 == u not judged: units differ only by ProcedureType links dropped by pickling (listed known finding)')
-        else:
-            comp, fine = still_unequal
-            ctx.fail(f'{pre}:not-equal:{comp}', case,
-                     f'unpickled != original (also with ProcedureType links ignored); first difference: {fine}')
-    # 3. scoping
+    # 2. no symbol of the copy lives in a scope of the original
     seen = set()
     for (s, where), tok in zip(inv2.occurrences, s2['scoping']):
         if tok.startswith('FOREIGN'):
             sig = f'{pre}:scope-owned-by-original:{_where_sig(s, where)}'
             if sig not in seen:
                 seen.add(sig)
-                ctx.fail(sig, case, f'{type(s).__name__} {str(s)!r} in {where} of the unpickled unit is scoped in a scope of the original')
+                fail(sig, f'{type(s).__name__} {str(s)!r} in {where} of the unpickled unit is scoped in a scope of the original')
     for (s, where), tok in zip(inv2.attr_occurrences, s2['attr-scoping']):
         if tok.startswith('FOREIGN'):
             sig = f'{pre}:scope-owned-by-original:{where}'
             if sig not in seen:
                 seen.add(sig)
-                ctx.fail(sig, case, f'symbol {str(s)!r} inside a stored type attribute ({where}) of the unpickled unit is scoped in a scope of the original')
-    if s1['names'] == s2['names']:
-        bad_scope = bad_type = False
+                fail(sig, f'symbol {str(s)!r} inside a stored type attribute ({where}) of the unpickled unit is scoped in a scope of the original')
+    # 3. attachment and types, occurrence by occurrence
+    if s1['names'] != s2['names']:
+        fail(f'{pre}:symbol-sequence-differs', 'the unpickled unit contains a different sequence of symbols')
+    elif not reported:
         for i, (a, b) in enumerate(zip(s1['scoping'], s2['scoping'])):
             s, where = inv2.occurrences[i]
             if a.startswith('anc'):
@@ -268,31 +258,54 @@ def roundtrip_checks(ctx, case, u, u2, label, parent_exempt=True):
             ta, tb = s1['types'][i], s2['types'][i]
             if isinstance(ta, dict) and ta.get('is_intrinsic'):
                 continue        # intrinsic procedure names are re-attached to the closest scope by design
-            if a.startswith('own') and b == 'none' and not bad_scope:
-                bad_scope = True
-                ctx.fail(f'{pre}:symbol-detached:{_where_sig(s, where)}', case,
-                         f'{type(s).__name__} {str(s)!r} in {where}: attached to {a} ({inv.scope_labels[int(a[4:])]}) '
-                         f'in the original but to no scope in the unpickled unit')
+            if a.startswith('own') and b == 'none':
+                # named by the kind of scope the symbol was attached to (PRINT items: by the statement, they are never visited)
+                lost = 'PrintStmt.values' if where.startswith('PrintStmt') else f'from-{type(inv.scopes[int(a[4:])]).__name__}'
+                fail(f'{pre}:symbol-detached:{lost}',
+                     f'{type(s).__name__} {str(s)!r} in {where}: attached to {a} ({inv.scope_labels[int(a[4:])]}) '
+                     f'in the original but to no scope in the unpickled unit')
+                break
             # attached to another scope of the unpickled unit (own:j instead of own:k) is accepted when the type is the same
-            if ta != tb and not bad_type and a.startswith('own'):
-                bad_type = True
-                ctx.fail(f'{pre}:type-differs:{_where_sig(s, where)}', case,
-                         f'{str(s)!r} in {where}: type {ta} in the original, {tb} in the unpickled unit')
-            elif a.startswith('own') and b.startswith('own') and a != b:
+            if ta != tb and a.startswith('own'):
+                fail(f'{pre}:type-differs:{where}',
+                     f'{type(s).__name__} {str(s)!r} in {where}: attached to {a} with type {ta} in the original, to {b} with type {tb} '
+                     f'in the unpickled unit')
+                break
+            if a.startswith('own') and b.startswith('own') and a != b:
                 ctx.count('symbol-attached-to-other-own-scope-same-type')
-    else:
-        ctx.fail(f'{pre}:symbol-sequence-differs', case, 'the unpickled unit contains a different sequence of symbols')
-    # 4. symbol-table contents (entries of intrinsic procedure names are created wherever such a name is re-attached)
+    # 4. equality
+    try:
+        equal = (u2 == u)
+    except Exception as e:  # noqa
+        fail(f'{pre}:eq-raises:{exc_bucket(e)}', repr(e))
+        equal = True
+    if not equal and any(t.startswith('anc') for t in s1['scoping']):
+        # the unit refers to symbols of its parent (sibling procedures, host variables); the parent is not pickled by
+        # design, those symbols come back deferred and cannot compare equal
+        ctx.count(f'{label}:equality-not-judged:unit-uses-symbols-of-its-unpickled-parent')
+    elif not equal and not reported:
+        still_unequal = _without_procedure_links(u, u2, lambda: None if u2 == u else _first_unequal(u, u2))
+        if still_unequal is None:
+            if case.get('judge_procedure_links', flags()['procedure_links']):
+                fail(f'{pre}:not-equal:ProcedureType-link-dropped',
+                     'unpickled != original although they are equal once the ProcedureType -> Subroutine links (weak references '
+                     'that ProcedureType.__getstate__ drops) are ignored on both sides')
+            else:
+                ctx.exclude('u2 == u not judged: units differ only by ProcedureType links dropped by pickling (listed known finding)')
+        else:
+            comp, fine = still_unequal
+            fail(f'{pre}:not-equal:{comp}', f'unpickled != original (also with ProcedureType links ignored); first difference: {fine}')
+    # 5. symbol-table contents (entries of intrinsic procedure names are created wherever such a name is re-attached)
     t1, t2 = _no_intrinsics(s1['symtab']), _no_intrinsics(s2['symtab'])
-    if t1 != t2:
+    if t1 != t2 and not reported:
         from ..irdump import first_difference
         d = first_difference(t1, t2) or ''
         path = d.split(':', 1)[0]
         attr = path.rsplit('.', 1)[-1] if '.' in path else 'entry'
         if not attr.isidentifier():
             attr = 'entry'
-        ctx.fail(f'{pre}:symtab-differs:{attr}', case, f'symbol-table contents differ: {d}')
-    return inv, inv2, s1
+        fail(f'{pre}:symtab-differs:{attr}', f'symbol-table contents differ: {d}')
+    return reported
 
 
 def check_case(case, ctx):
